@@ -107,6 +107,26 @@ func runQuota(c *Ctx, idx int, champions bool) {
 		sc.Opts.BabiesStolen = pick(r, sc.Opts.PopSize/2, sc.Opts.PopSize/3, 2*sc.Opts.PopSize/3)
 		sc.Epochs = 40 + r.Intn(20)
 	}
+	if champions && idx%16 == 12 {
+		// a population spawned from the shipped modular genome (rewired; one module in four switched off), asexual reproduction
+		// (the crossovers pile up the modules of both parents): the champion's modules are copied with their enabled flags
+		mg, err := loadShippedGenome(modularGenomeFile)
+		if err != nil {
+			panic("harness: " + err.Error())
+		}
+		ms := snapGenome(mg)
+		modularVariants(r, ms)
+		ms.Modules[r.Intn(len(ms.Modules))].En = false
+		sc.Ctor, sc.Start, sc.StartSrc = ctorSpawn, buildFromSnap(ms), "file:"+modularGenomeFile+" (modular, rewired, a module off)"
+		sc.Opts.MutateOnlyProb = 1
+		sc.RestoreAt = 0
+		// (sequential executor: the parallel one ships offspring in the plain genome encoding, which has no notation for modules)
+		sc.Parallel = false
+		if sc.Epochs > 15 {
+			sc.Epochs = 15
+		}
+		c.Count("scenarios.modular_start_genome", 1)
+	}
 	if champions && idx%5 == 1 {
 		// weights far beyond the usual range (a long run, a strong mutation power): the champion is copied all the same
 		sc.Opts.WeightMutPower = pick(r, 60.0, 400.0)
